@@ -664,6 +664,9 @@ def adjacency_history_rules(repo, chk, rule):
                 I.setattr_(l, "start_node", node(start))
             if end is not None:
                 I.setattr_(l, "end_node", node(end))
+            own = [(w_, I.getattr_(l, w_)) for w_ in ("start_node", "end_node")]
+            foreign = [w_ for w_, o_ in own if o_ is not node(I.getattr_(o_, "name"))]
+            chk.expect(not foreign, rule, "after re-targeting %s its ends are the registry's own node objects" % lname, loc(gfn), found=foreign or None)
         compare(wn, "as built")
         compare(wn, "queried a second time")
         a, b = I.getattr_(link("P1"), "start_node_name"), I.getattr_(link("P1"), "end_node_name")
